@@ -73,6 +73,9 @@ func Run(c *hl.Ctx, s Scenario) int {
 				c.Distinct("states", s.Name+"|"+outcome)
 				c.Add("transitions", int64(len(x.Trace)))
 				c.Add("traces_validated_against_impl", 1)
+				if n := c.Count("traces_validated_against_impl"); n == 1 || n == 40 || n == 3000 {
+					c.Sample(map[string]interface{}{"scenario": s.Name, "bound": b, "schedule": x.Trace, "outcome": outcome})
+				}
 				if outcome == "horizon" {
 					c.Cap("horizon hit in " + s.Name)
 				}
